@@ -28,12 +28,13 @@ type vFrrObs struct {
 	Ord      int                   `json:"ord"`
 	Mode     string                `json:"mode"`
 	Node     string                `json:"node"`
-	Sessions []verifkit.FrrSession `json:"sessions"`
+	Same     int                   `json:"same"` // > 0: the text is byte-identical to that of order Same (sessions, prog omitted)
+	Sessions []verifkit.FrrSession `json:"sessions,omitempty"`
 	Created  []bool                `json:"created"` // per session: NewSession succeeded and not closed
 	Errs     []string              `json:"errs"`
 	Sha      string                `json:"sha"`
 	Len      int                   `json:"len"`
-	Prog     *vFrrProgram          `json:"prog"`
+	Prog     *vFrrProgram          `json:"prog,omitempty"`
 	Text     string                `json:"text,omitempty"`
 }
 
@@ -133,13 +134,20 @@ func TestVerifFrrcfg(t *testing.T) {
 	os.Unsetenv("FRR_LOGGING_LEVEL")
 	withText := verifkit.FrrWithText()
 	verifkit.FrrForEach(scs, out, func(sc verifkit.FrrScenario, b *verifkit.Block) {
+		first := map[string]int{}
 		for k, ops := range sc.Orders {
 			text, errs, created := vFrrPlay(sc, ops)
 			sum := sha256.Sum256([]byte(text))
-			o := vFrrObs{ID: sc.ID, Ord: k + 1, Mode: "frr", Node: sc.Node, Sessions: sc.Sessions, Created: created, Errs: errs,
-				Sha: hex.EncodeToString(sum[:]), Len: len(text), Prog: vFrrTokenize(text)}
-			if withText {
-				o.Text = text
+			o := vFrrObs{ID: sc.ID, Ord: k + 1, Mode: "frr", Node: sc.Node, Created: created, Errs: errs,
+				Sha: hex.EncodeToString(sum[:]), Len: len(text)}
+			if f, ok := first[text]; ok {
+				o.Same = f // compression only: the driver copies sessions and program from that line
+			} else {
+				first[text] = k + 1
+				o.Sessions, o.Prog = sc.Sessions, vFrrTokenize(text)
+				if withText {
+					o.Text = text
+				}
 			}
 			b.Add(o)
 		}
